@@ -45,12 +45,12 @@ def run(ctx):
             # by-value entry = 2nd parameter, not a reference
             if b.arg_count >= 2 and not b.locals[2]["ty"].startswith("&"):
                 bodies.append(b)
-    ctx.floor("R10.1", "sink-level bodies taking an entry by value", len(bodies), 8)
+    ctx.floor("R10.1", "sink-level bodies taking an entry by value", len(bodies), 6)
     for b in bodies:
         check_linear(ctx, "R10.1", b, 2, is_consumer, what="entry", carriers=carriers)
     # ------------------------------------------------------------------ R10.7
     strat = [b for b in F.all_bodies(AG) if b.name == "insert" and b.impl and (b.impl.get("trait") or "").endswith("::AggregateValue") and "::tests::" not in b.path]
-    ctx.floor("R10.7", "AggregateValue::insert strategies", len(strat), 6)
+    ctx.floor("R10.7", "AggregateValue::insert strategies", len(strat), 5)
     for b in strat:
         ty = b.locals[2]["ty"]
         if ty.startswith("&"):
@@ -125,7 +125,7 @@ def run(ctx):
                   "%s no longer folds the value into the accumulator with `%s(accum, value)` (found %s%s%s)" % (
                       kname, "/".join(names), [c.name for c in sites], ", also " + str([c.name for c in others]) if others else "", ", plain overwrite of the accumulator" if plain_store else ""),
                   "%s(accum, value)" % sites[0].name if sites else "")
-    ctx.floor("R10.9", "value strategies judged against the table", n9, 6)
+    ctx.floor("R10.9", "value strategies judged against the table", n9, 5)
     # ------------------------------------------------------------------ R10.2 flush emits everything
     # emptying the map: `drain()` on it, or taking the whole map out (mem::take / replace) and iterating the taken value
     def _emptiers(b):
